@@ -656,3 +656,70 @@ class VProc(ScriptedMixin, Process):
 
     def _script_update(self, k, timestep, states):
         return {}
+
+
+# ---------------------------------------------------------------------------
+# timeline (C19): the real TimelineProcess, observed
+# ---------------------------------------------------------------------------
+
+def make_tlproc():
+    from vivarium.processes.timeline import TimelineProcess
+
+    class TLProc(TimelineProcess):
+        """vivarium's TimelineProcess with its callbacks recorded (behaviour
+        unchanged: every method defers to the real implementation)."""
+        name = 'timeline'
+
+        def _uid(self):
+            return REC.uid_of(self, base='timeline')
+
+        def calculate_timestep(self, states):
+            ts = super().calculate_timestep(states)
+            if REC.active:
+                REC.progress(self._uid(), 'P')
+                REC.ev('POLL', uid=self._uid(), ans=ts, view=snap_value(states), snap=None)
+            return ts
+
+        def next_update(self, timestep, states):
+            view = snap_value(states)
+            if REC.active:
+                REC.progress(self._uid(), 'N')
+            update = super().next_update(timestep, states)
+            n = getattr(self, '_verif_k', 0)
+            self._verif_k = n + 1
+            if REC.active:
+                REC.ev('NU', uid=self._uid(), n=n, ts=timestep, view=view,
+                       snap=REC.snapshot(), update=log_copy(update))
+            return update
+    return TLProc
+
+
+_TLPROC = None
+
+
+def TLProcClass():
+    global _TLPROC
+    if _TLPROC is None:
+        _TLPROC = make_tlproc()
+    return _TLPROC
+
+
+class Holder(ScriptedMixin, Process):
+    """Declares the variables a timeline drives (the timeline's own ports are
+    globs without sub-schema) and never writes them."""
+    name = 'holder'
+
+    def __init__(self, parameters=None):
+        super().__init__(parameters)
+        self._sinit()
+
+    def ports_schema(self):
+        s = self.spec
+        schema = self._base_schema()
+        for port, vars_ in s['ports'].items():
+            schema[port] = {v: {'_default': decode_value(copy.deepcopy(d)), '_emit': True}
+                            for v, d in vars_.items()}
+        return schema
+
+    def _script_update(self, k, timestep, states):
+        return {}
